@@ -1,30 +1,23 @@
 // Driver support for the emitted C++ codec (harness/PROTOCOL.md).  harness/lang_cpp.py GENERATES one
 // driver .cpp per program (C++ has no reflection): it parses the emitted struct declarations, pairs members
 // with declared fields POSITIONALLY and emits vb_*/vr_* functions (value tree -> native, native -> value
-// tree) that call the conversion templates below.  The templates look at the member's NATIVE type
-// (decltype) and at the DECLARED width / signedness given as template arguments; a native value that cannot
-// hold the declared value is an observation ({"t":"x"} when reading, build-raises when building).
+// tree) that call the conversion templates below.  The templates look at the member's NATIVE type and at the
+// DECLARED width / signedness given as template arguments; a native value that cannot hold the declared value
+// is an observation ({"t":"x"} when reading, build-raises when building).
+//
+// Everything that does not depend on the emitted types (JSON, value-tree helpers, the op loop) is only
+// DECLARED here and defined under DRV_IMPLEMENTATION: driver/drv_impl.cpp is compiled once by the plug-in's
+// setup() and linked to every generated driver, which keeps the per-program translation unit small.
 //
 // usage:  driver <ops.json> [--skip k]        -> one JSON event per op on the original stdout
 #pragma once
 #include <cstddef>
 #include <cstdint>
-#include <cstdio>
-#include <cstdlib>
-#include <cstring>
-#include <cxxabi.h>
-#include <exception>
-#include <fcntl.h>
-#include <fstream>
-#include <functional>
-#include <iterator>
 #include <memory>
-#include <sstream>
 #include <stdexcept>
 #include <string>
 #include <type_traits>
 #include <typeinfo>
-#include <unistd.h>
 #include <utility>
 #include <vector>
 
@@ -54,42 +47,340 @@ public:
     std::vector<J> a;
     std::vector<std::pair<std::string, J>> o;
 
-    J() = default;
-    J(bool v) : kind(Bool), b(v) {}
-    J(int v) : kind(Int), i(v) {}
-    J(long v) : kind(Int), i(v) {}
-    J(long long v) : kind(Int), i(v) {}
-    J(unsigned v) : kind(Int), i(v) {}
-    J(unsigned long v) : kind(Int), i(static_cast<long long>(v)) {}
-    J(unsigned long long v) : kind(Int), i(static_cast<long long>(v)) {}
-    J(const char* v) : kind(Str), s(v) {}
-    J(const std::string& v) : kind(Str), s(v) {}
-    static J arr() { J j; j.kind = Arr; return j; }
-    static J obj() { J j; j.kind = Obj; return j; }
+    J();
+    J(const J&);
+    J(J&&) noexcept;
+    J& operator=(const J&);
+    J& operator=(J&&) noexcept;
+    ~J();
+    J(bool v);
+    J(int v);
+    J(long v);
+    J(long long v);
+    J(unsigned v);
+    J(unsigned long v);
+    J(unsigned long long v);
+    J(const char* v);
+    J(const std::string& v);
+    static J arr();
+    static J obj();
 
-    bool is_null() const { return kind == Null; }
-    const J& operator[](const char* key) const {
-        static const J null;
-        for (const auto& kv : o) if (kv.first == key) return kv.second;
-        return null;
-    }
-    const J& operator[](std::size_t idx) const {
-        static const J null;
-        return idx < a.size() ? a[idx] : null;
-    }
-    std::size_t size() const { return kind == Arr ? a.size() : o.size(); }
-    J& set(const std::string& key, J v) {
-        for (auto& kv : o) if (kv.first == key) { kv.second = std::move(v); return *this; }
-        kind = Obj;
-        o.emplace_back(key, std::move(v));
-        return *this;
-    }
-    J& push(J v) { kind = Arr; a.push_back(std::move(v)); return *this; }
+    const J& operator[](const char* key) const;  // object member, a null J when absent
+    const J& at(std::size_t idx) const;          // array element, a null J when absent
+    std::size_t size() const;
+    J& set(const std::string& key, J v);
+    J& push(J v);
     const std::string& str() const { return s; }
     long long num() const { return kind == Dbl ? static_cast<long long>(d) : i; }
 };
 
-namespace detail {
+J parse(const std::string& text);
+std::string dump(const J& j);
+
+// ------------------------------------------------------------------------------------------------
+// value trees
+using Bytes = std::vector<uint8_t>;
+
+J jbytes(const uint8_t* p, std::size_t n);
+Bytes bytes_of_array(const J& a);
+J tb(const Bytes& b);
+J tb(const std::string& s);
+J tb_uint(uint64_t u, std::size_t width);  // canonical big-endian bytes of the low `width` bytes
+J tb_f32(float f);
+J tb_f64(double d);
+J tn();
+J tx(const std::string& repr, const std::string& why = "");
+J tl(J xs);
+J to(J fs);
+J tm(const std::string& pkt, J fs);
+
+bool is_null_tree(const J& v);
+bool is_list_tree(const J& v);
+uint64_t uint_of(const J& v, std::size_t width);  // scalar tree of exactly `width` bytes -> big-endian value
+float f32_of(const J& v);
+double f64_of(const J& v);
+std::string str_of(const J& v);                   // scalar tree of any length -> the bytes
+void check_count(const char* type, std::size_t declared, const J& fs);
+std::string demangle(const char* name);
+std::string decl_int_name(std::size_t width, bool sign);
+[[noreturn]] void cannot_hold(const std::type_info& native, const std::string& declared);
+[[noreturn]] void wrong_native(const std::type_info& native, const std::string& declared);
+J tx_native(const std::type_info& native, const std::string& declared);
+
+// ---- traits -----------------------------------------------------------------------------------
+template <class N> struct is_num : std::integral_constant<bool, std::is_arithmetic<N>::value && !std::is_same<N, bool>::value> {};
+template <class N> struct is_vec : std::false_type {};
+template <class E, class A> struct is_vec<std::vector<E, A>> : std::true_type {};
+template <class N> struct is_bytevec : std::false_type {};
+template <class A> struct is_bytevec<std::vector<char, A>> : std::true_type {};
+template <class A> struct is_bytevec<std::vector<uint8_t, A>> : std::true_type {};
+template <class A> struct is_bytevec<std::vector<int8_t, A>> : std::true_type {};
+
+inline int64_t sign_extend(uint64_t u, std::size_t width) {
+    if (width < 8 && ((u >> (8 * width - 1)) & 1)) u |= ~uint64_t(0) << (8 * width);
+    return static_cast<int64_t>(u);
+}
+
+constexpr int64_t int_max(std::size_t w) { return w >= 8 ? INT64_MAX : (int64_t(1) << (8 * (w & 7) - 1)) - 1; }
+constexpr int64_t int_min(std::size_t w) { return -int_max(w) - 1; }
+
+// ---- integers (int / len / ck fields): declared W bytes, signed S --------------------------------
+template <std::size_t W, bool S, class N>
+void put_int(N& dst, const J& v) {
+    if (is_null_tree(v)) return;
+    uint64_t u = uint_of(v, W);
+    if constexpr (is_num<N>::value && std::is_integral<N>::value) {
+        bool fits;
+        if constexpr (S) {
+            int64_t sv = sign_extend(u, W);
+            dst = static_cast<N>(sv);
+            fits = static_cast<int64_t>(dst) == sv && ((dst < 0) == (sv < 0));
+        } else {
+            dst = static_cast<N>(u);
+            fits = !(std::is_signed<N>::value && dst < 0) && static_cast<uint64_t>(dst) == u;
+        }
+        if (!fits) cannot_hold(typeid(N), decl_int_name(W, S));
+    } else if constexpr (std::is_floating_point<N>::value) {
+        long double want = S ? static_cast<long double>(sign_extend(u, W)) : static_cast<long double>(u);
+        dst = static_cast<N>(want);
+        if (static_cast<long double>(dst) != want) cannot_hold(typeid(N), decl_int_name(W, S));
+    } else {
+        wrong_native(typeid(N), decl_int_name(W, S));
+    }
+}
+
+template <std::size_t W, bool S, class N>
+J get_int(const N& x) {
+    if constexpr (is_num<N>::value && std::is_integral<N>::value) {
+        bool fits;
+        uint64_t u;
+        if constexpr (S) {
+            if (std::is_unsigned<N>::value && static_cast<uint64_t>(x) > static_cast<uint64_t>(INT64_MAX))
+                return tx(std::to_string(x), "out of range for " + decl_int_name(W, S));
+            int64_t sv = static_cast<int64_t>(x);
+            int64_t lo = int_min(W), hi = int_max(W);
+            fits = sv >= lo && sv <= hi;
+            u = static_cast<uint64_t>(sv);
+        } else {
+            if (std::is_signed<N>::value && x < 0) return tx(std::to_string(x), "negative value for " + decl_int_name(W, S));
+            u = static_cast<uint64_t>(x);
+            fits = W == 8 || u <= ((uint64_t(1) << (8 * (W & 7))) - 1);
+        }
+        if (!fits) return tx(std::to_string(x), "out of range for " + decl_int_name(W, S));
+        return tb_uint(u, W);
+    } else if constexpr (std::is_floating_point<N>::value) {
+        return tx(std::to_string(x), "floating-point member for " + decl_int_name(W, S));
+    } else {
+        return tx_native(typeid(N), decl_int_name(W, S));
+    }
+}
+
+// ---- floats -----------------------------------------------------------------------------------
+template <std::size_t W, class N>
+void put_float(N& dst, const J& v) {
+    static_assert(W == 4 || W == 8, "f32 / f64");
+    if (is_null_tree(v)) return;
+    if constexpr (std::is_floating_point<N>::value) {
+        if constexpr (W == 4) {
+            dst = static_cast<N>(f32_of(v));  // float -> float / double is exact
+        } else {
+            double d = f64_of(v);
+            dst = static_cast<N>(d);
+            if (!(static_cast<double>(dst) == d) && d == d) cannot_hold(typeid(N), "f64");
+        }
+    } else {
+        wrong_native(typeid(N), W == 4 ? "f32" : "f64");
+    }
+}
+template <std::size_t W, class N>
+J get_float(const N& x) {
+    static_assert(W == 4 || W == 8, "f32 / f64");
+    if constexpr (std::is_floating_point<N>::value) {
+        if constexpr (W == 4) {
+            float f = static_cast<float>(x);
+            if (!(static_cast<N>(f) == x) && x == x) return tx(std::to_string(x), "not representable as f32");
+            return tb_f32(f);
+        } else {
+            return tb_f64(static_cast<double>(x));
+        }
+    } else if constexpr (is_num<N>::value) {
+        return tx(std::to_string(x), "integer member for a float field");
+    } else {
+        return tx_native(typeid(N), W == 4 ? "f32" : "f64");
+    }
+}
+
+// ---- char (one byte) --------------------------------------------------------------------------
+template <class N>
+void put_char(N& dst, const J& v) {
+    if (is_null_tree(v)) return;
+    uint8_t c = static_cast<uint8_t>(uint_of(v, 1));
+    if constexpr (is_num<N>::value && std::is_integral<N>::value) {
+        dst = static_cast<N>(c);
+    } else if constexpr (std::is_same<N, std::string>::value) {
+        dst.assign(1, static_cast<char>(c));
+    } else {
+        wrong_native(typeid(N), "char");
+    }
+}
+template <class N>
+J get_char(const N& x) {
+    if constexpr (is_num<N>::value && std::is_integral<N>::value) {
+        if (sizeof(N) > 1 && (x < 0 || static_cast<uint64_t>(x) > 255)) return tx(std::to_string(x), "out of range for char");
+        return tb_uint(static_cast<uint8_t>(x), 1);
+    } else if constexpr (std::is_same<N, std::string>::value) {
+        return tb(x);
+    } else {
+        return tx_native(typeid(N), "char");
+    }
+}
+
+// ---- strings (fix / dyn): UTF-8 bytes of the unpadded value -----------------------------------
+template <class N>
+void put_str(N& dst, const J& v) {
+    if (is_null_tree(v)) return;
+    if constexpr (std::is_same<N, std::string>::value) {
+        dst = str_of(v);
+    } else if constexpr (is_bytevec<N>::value) {
+        std::string s = str_of(v);
+        dst.clear();
+        for (char x : s) dst.push_back(static_cast<typename N::value_type>(x));
+    } else {
+        wrong_native(typeid(N), "string");
+    }
+}
+template <class N>
+J get_str(const N& x) {
+    if constexpr (std::is_same<N, std::string>::value) {
+        return tb(x);
+    } else if constexpr (is_bytevec<N>::value) {
+        std::string s;
+        for (auto c : x) s.push_back(static_cast<char>(c));
+        return tb(s);
+    } else if constexpr (std::is_same<N, const char*>::value || std::is_same<N, char*>::value) {
+        return x ? tb(std::string(x)) : tn();
+    } else if constexpr (is_num<N>::value) {
+        return tx(std::to_string(x), "numeric member for a string field");
+    } else {
+        return tx_native(typeid(N), "string");
+    }
+}
+
+// ---- repeated fields --------------------------------------------------------------------------
+// elem(e, x) fills one value-initialised element from the tree x;  elem(e) reads one element
+template <class N, class F>
+void put_list(N& dst, const J& v, F elem) {
+    if (is_null_tree(v)) return;
+    if (!is_list_tree(v)) throw BuildError("value tree: list expected");
+    if constexpr (is_vec<N>::value) {
+        using E = typename N::value_type;
+        const J& xs = v["xs"];
+        dst.clear();
+        for (std::size_t k = 0; k < xs.size(); k++) {
+            E e{};
+            elem(e, xs.at(k));
+            dst.push_back(std::move(e));
+        }
+    } else {
+        throw MemberMismatch("native member of type " + demangle(typeid(N).name()) + " for a repeated field");
+    }
+}
+template <class N, class F>
+J get_list(const N& x, F elem) {
+    if constexpr (is_vec<N>::value) {
+        J xs = J::arr();
+        for (const auto& e : x) xs.push(elem(e));
+        return tl(std::move(xs));
+    } else {
+        return tx_native(typeid(N), "repeated field");
+    }
+}
+
+// ---- match payloads: owning pointer to the codec base ------------------------------------------
+template <class X> const X* raw(const std::unique_ptr<X>& p) { return p.get(); }
+template <class X> const X* raw(const std::shared_ptr<X>& p) { return p.get(); }
+template <class X> const X* raw(X* const& p) { return p; }
+template <class X> const X* raw(const X* const& p) { return p; }
+
+template <class D, class T>
+void assign_ptr(D& dst, std::unique_ptr<T> p) {
+    if constexpr (std::is_pointer<D>::value) dst = p.release();
+    else dst = std::move(p);
+}
+
+// ------------------------------------------------------------------------------------------------
+// runner: one type-erased entry per packet named by an op
+struct Ops {
+    std::string pkt;
+    void* (*create)();                        // value-initialised emitted object
+    void (*destroy)(void*);
+    codec::BinaryCodec* (*codec)(void*);
+    void (*build)(void*, const J& fs);        // value tree -> native (throws MemberMismatch / anything)
+    J (*read)(const void*);                   // native -> list of field trees
+};
+
+template <class T, void (*B)(T&, const J&), J (*R)(const T&)>
+Ops make_ops(const char* pkt) {
+    Ops o;
+    o.pkt = pkt;
+    o.create = []() -> void* { return new T{}; };
+    o.destroy = [](void* p) { delete static_cast<T*>(p); };
+    o.codec = [](void* p) -> codec::BinaryCodec* { return static_cast<T*>(p); };
+    o.build = [](void* p, const J& fs) { B(*static_cast<T*>(p), fs); };
+    o.read = [](const void* p) -> J { return R(*static_cast<const T*>(p)); };
+    return o;
+}
+
+int run(int argc, char** argv, const std::vector<Ops>& table);
+
+}  // namespace drv
+
+// ====================================================================================================
+#ifdef DRV_IMPLEMENTATION
+#include <cstdio>
+#include <cstdlib>
+#include <cstring>
+#include <cxxabi.h>
+#include <fstream>
+#include <iterator>
+#include <sstream>
+#include <unistd.h>
+
+namespace drv {
+
+J::J() = default;
+J::J(const J&) = default;
+J::J(J&&) noexcept = default;
+J& J::operator=(const J&) = default;
+J& J::operator=(J&&) noexcept = default;
+J::~J() = default;
+J::J(bool v) : kind(Bool), b(v) {}
+J::J(int v) : kind(Int), i(v) {}
+J::J(long v) : kind(Int), i(v) {}
+J::J(long long v) : kind(Int), i(v) {}
+J::J(unsigned v) : kind(Int), i(v) {}
+J::J(unsigned long v) : kind(Int), i(static_cast<long long>(v)) {}
+J::J(unsigned long long v) : kind(Int), i(static_cast<long long>(v)) {}
+J::J(const char* v) : kind(Str), s(v) {}
+J::J(const std::string& v) : kind(Str), s(v) {}
+J J::arr() { J j; j.kind = Arr; return j; }
+J J::obj() { J j; j.kind = Obj; return j; }
+static const J NULL_J;
+const J& J::operator[](const char* key) const {
+    for (const auto& kv : o) if (kv.first == key) return kv.second;
+    return NULL_J;
+}
+const J& J::at(std::size_t idx) const { return idx < a.size() ? a[idx] : NULL_J; }
+std::size_t J::size() const { return kind == Arr ? a.size() : o.size(); }
+J& J::set(const std::string& key, J v) {
+    for (auto& kv : o) if (kv.first == key) { kv.second = std::move(v); return *this; }
+    kind = Obj;
+    o.emplace_back(key, std::move(v));
+    return *this;
+}
+J& J::push(J v) { kind = Arr; a.push_back(std::move(v)); return *this; }
+
+namespace {
 struct Parser {
     const std::string& t;
     std::size_t p = 0;
@@ -202,7 +493,7 @@ struct Parser {
     }
 };
 
-inline void dump_str(std::string& out, const std::string& s) {
+void dump_str(std::string& out, const std::string& s) {
     static const char* hex = "0123456789abcdef";
     out += '"';
     for (unsigned char c : s) {
@@ -210,7 +501,7 @@ inline void dump_str(std::string& out, const std::string& s) {
         else if (c == '\\') out += "\\\\";
         else if (c == '\n') out += "\\n";
         else if (c == '\t') out += "\\t";
-        else if (c < 0x20 || c >= 0x7F) {  // bytes, not code points: keep the line valid JSON whatever the text is
+        else if (c < 0x20 || c >= 0x7F) {  // bytes, not code points: the line stays valid JSON whatever the text is
             out += "\\u00";
             out += hex[c >> 4];
             out += hex[c & 15];
@@ -218,7 +509,7 @@ inline void dump_str(std::string& out, const std::string& s) {
     }
     out += '"';
 }
-inline void dump(std::string& out, const J& j) {
+void dump_to(std::string& out, const J& j) {
     switch (j.kind) {
         case J::Null: out += "null"; break;
         case J::Bool: out += j.b ? "true" : "false"; break;
@@ -227,333 +518,131 @@ inline void dump(std::string& out, const J& j) {
         case J::Str: dump_str(out, j.s); break;
         case J::Arr: {
             out += '[';
-            for (std::size_t k = 0; k < j.a.size(); k++) { if (k) out += ','; dump(out, j.a[k]); }
+            for (std::size_t k = 0; k < j.a.size(); k++) { if (k) out += ','; dump_to(out, j.a[k]); }
             out += ']';
             break;
         }
         case J::Obj: {
             out += '{';
-            for (std::size_t k = 0; k < j.o.size(); k++) { if (k) out += ','; dump_str(out, j.o[k].first); out += ':'; dump(out, j.o[k].second); }
+            for (std::size_t k = 0; k < j.o.size(); k++) { if (k) out += ','; dump_str(out, j.o[k].first); out += ':'; dump_to(out, j.o[k].second); }
             out += '}';
             break;
         }
     }
 }
-}  // namespace detail
+}  // namespace
 
-inline J parse(const std::string& text) {
-    detail::Parser p(text);
-    J j = p.value();
-    return j;
+J parse(const std::string& text) {
+    Parser p(text);
+    return p.value();
 }
-inline std::string dump(const J& j) {
+std::string dump(const J& j) {
     std::string out;
-    detail::dump(out, j);
+    dump_to(out, j);
     return out;
 }
 
-// ------------------------------------------------------------------------------------------------
-// value trees
-using Bytes = std::vector<uint8_t>;
-
-inline J jbytes(const uint8_t* p, std::size_t n) {
+J jbytes(const uint8_t* p, std::size_t n) {
     J a = J::arr();
     a.a.reserve(n);
     for (std::size_t k = 0; k < n; k++) a.a.emplace_back(static_cast<int>(p[k]));
     return a;
 }
-inline J jbytes(const Bytes& b) { return jbytes(b.data(), b.size()); }
-inline Bytes bytes_of_array(const J& a) {
+Bytes bytes_of_array(const J& a) {
     Bytes out;
     out.reserve(a.a.size());
     for (const J& x : a.a) out.push_back(static_cast<uint8_t>(x.num() & 0xFF));
     return out;
 }
-inline J tb(const Bytes& b) { J j = J::obj(); j.set("t", "b"); j.set("b", jbytes(b)); return j; }
-inline J tb(const std::string& s) { J j = J::obj(); j.set("t", "b"); j.set("b", jbytes(reinterpret_cast<const uint8_t*>(s.data()), s.size())); return j; }
-inline J tn() { J j = J::obj(); j.set("t", "n"); return j; }
-inline J tx(const std::string& repr, const std::string& why = "") {
+J tb(const Bytes& b) { J j = J::obj(); j.set("t", "b"); j.set("b", jbytes(b.data(), b.size())); return j; }
+J tb(const std::string& s) { J j = J::obj(); j.set("t", "b"); j.set("b", jbytes(reinterpret_cast<const uint8_t*>(s.data()), s.size())); return j; }
+J tb_uint(uint64_t u, std::size_t width) {
+    Bytes b(width);
+    for (std::size_t k = 0; k < width; k++) b[k] = static_cast<uint8_t>((u >> (8 * (width - 1 - k))) & 0xFF);
+    return tb(b);
+}
+J tb_f32(float f) { Bytes b(4); verif::to_bytes<float>(f, b.data(), false); return tb(b); }
+J tb_f64(double d) { Bytes b(8); verif::to_bytes<double>(d, b.data(), false); return tb(b); }
+J tn() { J j = J::obj(); j.set("t", "n"); return j; }
+J tx(const std::string& repr, const std::string& why) {
     J j = J::obj();
     j.set("t", "x");
     j.set("repr", repr.substr(0, 80));
     if (!why.empty()) j.set("err", why);
     return j;
 }
-inline J tl(J xs) { J j = J::obj(); j.set("t", "l"); xs.kind = J::Arr; j.set("xs", std::move(xs)); return j; }
-inline J to(J fs) { J j = J::obj(); j.set("t", "o"); fs.kind = J::Arr; j.set("fs", std::move(fs)); return j; }
-inline J tm(const std::string& pkt, J fs) { J j = J::obj(); j.set("t", "m"); j.set("pkt", pkt); fs.kind = J::Arr; j.set("fs", std::move(fs)); return j; }
+J tl(J xs) { J j = J::obj(); j.set("t", "l"); xs.kind = J::Arr; j.set("xs", std::move(xs)); return j; }
+J to(J fs) { J j = J::obj(); j.set("t", "o"); fs.kind = J::Arr; j.set("fs", std::move(fs)); return j; }
+J tm(const std::string& pkt, J fs) { J j = J::obj(); j.set("t", "m"); j.set("pkt", pkt); fs.kind = J::Arr; j.set("fs", std::move(fs)); return j; }
 
-inline bool is_null_tree(const J& v) { return v["t"].str() == "n"; }
-inline Bytes scalar_bytes(const J& v, std::size_t want) {
+bool is_null_tree(const J& v) { return v["t"].str() == "n"; }
+bool is_list_tree(const J& v) { return v["t"].str() == "l"; }
+static Bytes scalar_bytes(const J& v, std::size_t want) {
     if (v["t"].str() != "b") throw BuildError("value tree: scalar expected, got t=" + v["t"].str());
     Bytes b = bytes_of_array(v["b"]);
     if (want && b.size() != want) throw BuildError("value tree: " + std::to_string(b.size()) + " bytes for a " + std::to_string(want) + "-byte scalar");
     return b;
 }
-inline void check_count(const char* type, std::size_t declared, const J& fs) {
+uint64_t uint_of(const J& v, std::size_t width) {
+    uint64_t u = 0;
+    for (uint8_t x : scalar_bytes(v, width)) u = (u << 8) | x;
+    return u;
+}
+float f32_of(const J& v) { Bytes b = scalar_bytes(v, 4); return verif::from_bytes<float>(b.data(), false); }
+double f64_of(const J& v) { Bytes b = scalar_bytes(v, 8); return verif::from_bytes<double>(b.data(), false); }
+std::string str_of(const J& v) {
+    Bytes b = scalar_bytes(v, 0);
+    return std::string(reinterpret_cast<const char*>(b.data()), b.size());
+}
+void check_count(const char* type, std::size_t declared, const J& fs) {
     if (fs.size() != declared)
         throw MemberMismatch(std::string("value for ") + type + " has " + std::to_string(fs.size()) + " entries for " + std::to_string(declared) + " declared fields");
 }
-
-inline std::string demangle(const char* name) {
+std::string demangle(const char* name) {
     int st = 0;
     char* d = abi::__cxa_demangle(name, nullptr, nullptr, &st);
     std::string out = (st == 0 && d) ? d : name;
     std::free(d);
     return out;
 }
-template <class T> std::string type_name() { return demangle(typeid(T).name()); }
-
-// ---- traits -----------------------------------------------------------------------------------
-template <class N> using bare = typename std::remove_cv<typename std::remove_reference<N>::type>::type;
-template <class N> struct is_num : std::integral_constant<bool, std::is_arithmetic<N>::value && !std::is_same<N, bool>::value> {};
-template <class N> struct is_vec : std::false_type {};
-template <class E, class A> struct is_vec<std::vector<E, A>> : std::true_type {};
-template <class N> struct is_bytevec : std::false_type {};
-template <class A> struct is_bytevec<std::vector<char, A>> : std::true_type {};
-template <class A> struct is_bytevec<std::vector<uint8_t, A>> : std::true_type {};
-template <class A> struct is_bytevec<std::vector<int8_t, A>> : std::true_type {};
-
-template <std::size_t W, bool S> struct decl_name {
-    static std::string get() { return std::string(S ? "i" : "u") + std::to_string(8 * W); }
-};
-
-// ---- integers (int / len / ck fields) ---------------------------------------------------------
-// declared: W bytes, signed S.  big-endian canonical bytes <-> native member of type N.
-template <std::size_t W, bool S, class N>
-void put_int(N& dst, const J& v) {
-    if (is_null_tree(v)) return;
-    Bytes b = scalar_bytes(v, W);
-    uint64_t u = 0;
-    for (uint8_t x : b) u = (u << 8) | x;
-    if constexpr (is_num<N>::value && std::is_integral<N>::value) {
-        bool fits;
-        if constexpr (S) {
-            int64_t sv = (W < 8 && (u >> (8 * W - 1)) & 1) ? static_cast<int64_t>(u | (~uint64_t(0) << (8 * W))) : static_cast<int64_t>(u);
-            dst = static_cast<N>(sv);
-            fits = static_cast<int64_t>(dst) == sv && ((dst < 0) == (sv < 0));
-        } else {
-            dst = static_cast<N>(u);
-            fits = !(std::is_signed<N>::value && dst < 0) && static_cast<uint64_t>(dst) == u;
-        }
-        if (!fits) throw BuildError("native member of type " + type_name<N>() + " cannot hold the declared " + decl_name<W, S>::get() + " value");
-    } else if constexpr (std::is_floating_point<N>::value) {
-        long double want;
-        if constexpr (S) {
-            int64_t sv = (W < 8 && (u >> (8 * W - 1)) & 1) ? static_cast<int64_t>(u | (~uint64_t(0) << (8 * W))) : static_cast<int64_t>(u);
-            want = static_cast<long double>(sv);
-        } else {
-            want = static_cast<long double>(u);
-        }
-        dst = static_cast<N>(want);
-        if (static_cast<long double>(dst) != want) throw BuildError("native member of type " + type_name<N>() + " cannot hold the declared " + decl_name<W, S>::get() + " value");
-    } else {
-        throw BuildError("native member of type " + type_name<N>() + " for a declared " + decl_name<W, S>::get() + " field");
-    }
+std::string decl_int_name(std::size_t width, bool sign) { return std::string(sign ? "i" : "u") + std::to_string(8 * width); }
+void cannot_hold(const std::type_info& native, const std::string& declared) {
+    throw BuildError("native member of type " + demangle(native.name()) + " cannot hold the declared " + declared + " value");
+}
+void wrong_native(const std::type_info& native, const std::string& declared) {
+    throw BuildError("native member of type " + demangle(native.name()) + " for a declared " + declared + " field");
+}
+J tx_native(const std::type_info& native, const std::string& declared) {
+    return tx("<" + demangle(native.name()) + ">", "native type for a declared " + declared + " field");
 }
 
-template <std::size_t W, bool S, class N>
-J get_int(const N& x) {
-    if constexpr (is_num<N>::value && std::is_integral<N>::value) {
-        bool fits;
-        uint64_t u;
-        if constexpr (S) {
-            if (std::is_unsigned<N>::value && static_cast<uint64_t>(x) > static_cast<uint64_t>(INT64_MAX)) return tx(std::to_string(x), "out of range for " + decl_name<W, S>::get());
-            int64_t sv = static_cast<int64_t>(x);
-            int64_t lo = W == 8 ? INT64_MIN : -(int64_t(1) << (8 * W - 1));
-            int64_t hi = W == 8 ? INT64_MAX : (int64_t(1) << (8 * W - 1)) - 1;
-            fits = sv >= lo && sv <= hi;
-            u = static_cast<uint64_t>(sv);
-        } else {
-            if (std::is_signed<N>::value && x < 0) return tx(std::to_string(x), "negative value for " + decl_name<W, S>::get());
-            u = static_cast<uint64_t>(x);
-            fits = W == 8 || u <= ((uint64_t(1) << (8 * (W & 7))) - 1);
-        }
-        if (!fits) return tx(std::to_string(x), "out of range for " + decl_name<W, S>::get());
-        Bytes b(W);
-        for (std::size_t k = 0; k < W; k++) b[k] = static_cast<uint8_t>((u >> (8 * (W - 1 - k))) & 0xFF);
-        return tb(b);
-    } else if constexpr (std::is_floating_point<N>::value) {
-        return tx(std::to_string(x), "floating-point member for " + decl_name<W, S>::get());
-    } else {
-        return tx("<" + type_name<N>() + ">", "native type for " + decl_name<W, S>::get());
-    }
-}
-
-// ---- floats -----------------------------------------------------------------------------------
-template <std::size_t W, class N>
-void put_float(N& dst, const J& v) {
-    static_assert(W == 4 || W == 8, "f32 / f64");
-    if (is_null_tree(v)) return;
-    Bytes b = scalar_bytes(v, W);
-    if constexpr (std::is_floating_point<N>::value) {
-        if constexpr (W == 4) {
-            float f = verif::from_bytes<float>(b.data(), false);
-            dst = static_cast<N>(f);  // float -> float/double is exact
-        } else {
-            double d = verif::from_bytes<double>(b.data(), false);
-            dst = static_cast<N>(d);
-            if (!(static_cast<double>(dst) == d) && d == d)
-                throw BuildError("native member of type " + type_name<N>() + " cannot hold the declared f64 value");
-        }
-    } else {
-        throw BuildError("native member of type " + type_name<N>() + " for a declared f" + std::to_string(8 * W) + " field");
-    }
-}
-template <std::size_t W, class N>
-J get_float(const N& x) {
-    static_assert(W == 4 || W == 8, "f32 / f64");
-    if constexpr (std::is_floating_point<N>::value) {
-        Bytes b(W);
-        if constexpr (W == 4) {
-            float f = static_cast<float>(x);
-            if (!(static_cast<N>(f) == x) && x == x) return tx(std::to_string(x), "not representable as f32");
-            verif::to_bytes<float>(f, b.data(), false);
-        } else {
-            verif::to_bytes<double>(static_cast<double>(x), b.data(), false);
-        }
-        return tb(b);
-    } else if constexpr (is_num<N>::value) {
-        return tx(std::to_string(x), "integer member for a float field");
-    } else {
-        return tx("<" + type_name<N>() + ">", "native type for a float field");
-    }
-}
-
-// ---- char (one byte) --------------------------------------------------------------------------
-template <class N>
-void put_char(N& dst, const J& v) {
-    if (is_null_tree(v)) return;
-    Bytes b = scalar_bytes(v, 1);
-    if constexpr (std::is_integral<N>::value && !std::is_same<N, bool>::value) {
-        dst = static_cast<N>(sizeof(N) == 1 ? static_cast<N>(b[0]) : static_cast<N>(b[0]));
-    } else if constexpr (std::is_same<N, std::string>::value) {
-        dst.assign(1, static_cast<char>(b[0]));
-    } else {
-        throw BuildError("native member of type " + type_name<N>() + " for a declared char field");
-    }
-}
-template <class N>
-J get_char(const N& x) {
-    if constexpr (std::is_integral<N>::value && !std::is_same<N, bool>::value) {
-        if (sizeof(N) > 1 && (x < 0 || static_cast<uint64_t>(x) > 255)) return tx(std::to_string(x), "out of range for char");
-        return tb(Bytes{static_cast<uint8_t>(x)});
-    } else if constexpr (std::is_same<N, std::string>::value) {
-        return tb(x);
-    } else {
-        return tx("<" + type_name<N>() + ">", "native type for a char field");
-    }
-}
-
-// ---- strings (fix / dyn): UTF-8 bytes of the unpadded value -----------------------------------
-template <class N>
-void put_str(N& dst, const J& v) {
-    if (is_null_tree(v)) return;
-    Bytes b = scalar_bytes(v, 0);
-    if constexpr (std::is_same<N, std::string>::value) {
-        dst.assign(reinterpret_cast<const char*>(b.data()), b.size());
-    } else if constexpr (is_bytevec<N>::value) {
-        dst.clear();
-        for (uint8_t x : b) dst.push_back(static_cast<typename N::value_type>(x));
-    } else {
-        throw BuildError("native member of type " + type_name<N>() + " for a declared string field");
-    }
-}
-template <class N>
-J get_str(const N& x) {
-    if constexpr (std::is_same<N, std::string>::value) {
-        return tb(x);
-    } else if constexpr (is_bytevec<N>::value) {
-        Bytes b;
-        for (auto c : x) b.push_back(static_cast<uint8_t>(c));
-        return tb(b);
-    } else if constexpr (std::is_same<N, const char*>::value || std::is_same<N, char*>::value) {
-        return x ? tb(std::string(x)) : tn();
-    } else if constexpr (is_num<N>::value) {
-        return tx(std::to_string(x), "numeric member for a string field");
-    } else {
-        return tx("<" + type_name<N>() + ">", "native type for a string field");
-    }
-}
-
-// ---- repeated fields --------------------------------------------------------------------------
-// elem(e, x): fills one default-constructed element from the tree x / reads one element
-template <class N, class F>
-void put_list(N& dst, const J& v, F elem) {
-    if (is_null_tree(v)) return;
-    if (v["t"].str() != "l") throw BuildError("value tree: list expected, got t=" + v["t"].str());
-    if constexpr (is_vec<N>::value) {
-        using E = typename N::value_type;
-        dst.clear();
-        for (const J& x : v["xs"].a) {
-            E e{};
-            elem(e, x);
-            dst.push_back(std::move(e));
-        }
-    } else {
-        throw MemberMismatch("native member of type " + type_name<N>() + " for a repeated field");
-    }
-}
-template <class N, class F>
-J get_list(const N& x, F elem) {
-    if constexpr (is_vec<N>::value) {
-        J xs = J::arr();
-        for (const auto& e : x) xs.push(elem(e));
-        return tl(std::move(xs));
-    } else {
-        return tx("<" + type_name<N>() + ">", "native type for a repeated field");
-    }
-}
-
-// ---- match payloads: owning pointer to the codec base ------------------------------------------
-template <class X> const X* raw(const std::unique_ptr<X>& p) { return p.get(); }
-template <class X> const X* raw(const std::shared_ptr<X>& p) { return p.get(); }
-template <class X> const X* raw(X* const& p) { return p; }
-template <class X> const X* raw(const X* const& p) { return p; }
-
-template <class D, class T>
-void assign_ptr(D& dst, std::unique_ptr<T> p) {
-    if constexpr (std::is_pointer<D>::value) dst = p.release();
-    else dst = std::move(p);
-}
-
-// ------------------------------------------------------------------------------------------------
-// runner
-inline std::string errinfo(const std::exception& e) {
+// ---- op loop ------------------------------------------------------------------------------------
+static std::string errinfo(const std::exception& e) {
     std::string w = e.what();
     return demangle(typeid(e).name()) + ": " + w.substr(0, 200);
 }
-inline std::string errinfo_unknown() {
-    std::string n = "unknown exception";
-    if (std::type_info* t = abi::__cxa_current_exception_type()) n = demangle(t->name());
-    return n;
+static std::string errinfo_unknown() {
+    if (std::type_info* t = abi::__cxa_current_exception_type()) return demangle(t->name());
+    return "unknown exception";
 }
-
-struct Ops {
-    std::string pkt;
-    std::function<void(const J& op, J& ev)> enc;
-    std::function<void(const J& op, J& ev, bool reenc)> dec;
-};
-
-inline void fail(J& ev, const char* cls, const std::string& err) {
+static void fail(J& ev, const char* cls, const std::string& err) {
     ev.set("ok", false);
     ev.set("cls", cls);
     ev.set("err", err);
 }
-
-inline J prims_of_trace() {
+static J prims_of_trace() {
     J prims = J::arr();
     for (const verif::Prim& p : verif::trace()) {
         if (p.kind == 'c') continue;
         J e = J::arr();
         e.push(p.kind == 'a' ? "append" : "set");
         e.push(static_cast<unsigned long long>(p.pos));
-        e.push(jbytes(p.bytes));
+        e.push(jbytes(p.bytes.data(), p.bytes.size()));
         prims.push(std::move(e));
     }
     return prims;
 }
-inline J calcs_of_trace() {
+static J calcs_of_trace() {
     J calcs = J::arr();
     for (const verif::Prim& p : verif::trace()) {
         if (p.kind != 'c') continue;
@@ -565,86 +654,91 @@ inline J calcs_of_trace() {
     return calcs;
 }
 
-template <class T>
-Ops make_ops(const char* pkt, void (*build)(T&, const J&), J (*read)(const T&)) {
-    Ops ops;
-    ops.pkt = pkt;
-    ops.enc = [build](const J& op, J& ev) {
-        T o{};
-        try {
-            build(o, op["val"]["fs"]);
-        } catch (const MemberMismatch& e) {
-            return fail(ev, "member-missing", e.what());
-        } catch (const std::exception& e) {
-            return fail(ev, "build-raises", errinfo(e));
-        } catch (...) {
-            return fail(ev, "build-raises", errinfo_unknown());
-        }
-        try {
-            verif::trace().clear();
-            verif::tracing() = true;
-            ByteBuf buf;
-            static_cast<const codec::BinaryCodec&>(o).encode(buf);
-            verif::tracing() = false;
-            ev.set("ok", true);
-            ev.set("bytes", jbytes(buf.data(), buf.writer_index()));
-            ev.set("prims", prims_of_trace());
-            ev.set("calcs", calcs_of_trace());
-        } catch (const std::exception& e) {
-            verif::tracing() = false;
-            fail(ev, "encode-raises", errinfo(e));
-        } catch (...) {
-            verif::tracing() = false;
-            fail(ev, "encode-raises", errinfo_unknown());
-        }
-    };
-    ops.dec = [read](const J& op, J& ev, bool reenc) {
-        Bytes data = bytes_of_array(op["bytes"]);
-        Bytes tail = bytes_of_array(op["tail"]);
-        data.insert(data.end(), tail.begin(), tail.end());
-        ByteBuf buf(data);
-        T o{};
-        try {
-            static_cast<codec::BinaryCodec&>(o).decode(buf);
-        } catch (const std::exception& e) {
-            fail(ev, "decode-raises", errinfo(e));
-            ev.set("consumed", static_cast<unsigned long long>(buf.reader_index()));
-            return;
-        } catch (...) {
-            fail(ev, "decode-raises", errinfo_unknown());
-            ev.set("consumed", static_cast<unsigned long long>(buf.reader_index()));
-            return;
-        }
+namespace {
+struct Holder {  // owns one emitted object
+    const Ops& ops;
+    void* p;
+    explicit Holder(const Ops& o) : ops(o), p(o.create()) {}
+    ~Holder() { ops.destroy(p); }
+    codec::BinaryCodec& codec() { return *ops.codec(p); }
+};
+}  // namespace
+
+static void run_enc(const Ops& ops, const J& op, J& ev) {
+    Holder h(ops);
+    try {
+        ops.build(h.p, op["val"]["fs"]);
+    } catch (const MemberMismatch& e) {
+        return fail(ev, "member-missing", e.what());
+    } catch (const std::exception& e) {
+        return fail(ev, "build-raises", errinfo(e));
+    } catch (...) {
+        return fail(ev, "build-raises", errinfo_unknown());
+    }
+    try {
+        verif::trace().clear();
+        verif::tracing() = true;
+        ByteBuf buf;
+        static_cast<const codec::BinaryCodec&>(h.codec()).encode(buf);
+        verif::tracing() = false;
         ev.set("ok", true);
-        ev.set("consumed", static_cast<unsigned long long>(buf.reader_index()));
-        try {
-            ev.set("val", to(read(o)));
-        } catch (const MemberMismatch& e) {
-            return fail(ev, "member-missing", e.what());
-        } catch (const std::exception& e) {
-            return fail(ev, "read-raises", errinfo(e));
-        } catch (...) {
-            return fail(ev, "read-raises", errinfo_unknown());
-        }
-        if (reenc) {
-            try {
-                ByteBuf b2;
-                static_cast<const codec::BinaryCodec&>(o).encode(b2);
-                ev.set("reenc", jbytes(b2.data(), b2.writer_index()));
-            } catch (const std::exception& e) {
-                ev.set("reenc_err", errinfo(e));
-            } catch (...) {
-                ev.set("reenc_err", errinfo_unknown());
-            }
-        }
-    };
-    return ops;
+        ev.set("bytes", jbytes(buf.data(), buf.writer_index()));
+        ev.set("prims", prims_of_trace());
+        ev.set("calcs", calcs_of_trace());
+    } catch (const std::exception& e) {
+        verif::tracing() = false;
+        fail(ev, "encode-raises", errinfo(e));
+    } catch (...) {
+        verif::tracing() = false;
+        fail(ev, "encode-raises", errinfo_unknown());
+    }
 }
 
-inline int run(int argc, char** argv, const std::vector<Ops>& table) {
+static void run_dec(const Ops& ops, const J& op, J& ev, bool reenc) {
+    Bytes data = bytes_of_array(op["bytes"]);
+    Bytes tail = bytes_of_array(op["tail"]);
+    data.insert(data.end(), tail.begin(), tail.end());
+    ByteBuf buf(data);
+    Holder h(ops);
+    try {
+        h.codec().decode(buf);
+    } catch (const std::exception& e) {
+        fail(ev, "decode-raises", errinfo(e));
+        ev.set("consumed", static_cast<unsigned long long>(buf.reader_index()));
+        return;
+    } catch (...) {
+        fail(ev, "decode-raises", errinfo_unknown());
+        ev.set("consumed", static_cast<unsigned long long>(buf.reader_index()));
+        return;
+    }
+    ev.set("ok", true);
+    ev.set("consumed", static_cast<unsigned long long>(buf.reader_index()));
+    try {
+        ev.set("val", to(ops.read(h.p)));
+    } catch (const MemberMismatch& e) {
+        return fail(ev, "member-missing", e.what());
+    } catch (const std::exception& e) {
+        return fail(ev, "read-raises", errinfo(e));
+    } catch (...) {
+        return fail(ev, "read-raises", errinfo_unknown());
+    }
+    if (reenc) {
+        try {
+            ByteBuf b2;
+            static_cast<const codec::BinaryCodec&>(h.codec()).encode(b2);
+            ev.set("reenc", jbytes(b2.data(), b2.writer_index()));
+        } catch (const std::exception& e) {
+            ev.set("reenc_err", errinfo(e));
+        } catch (...) {
+            ev.set("reenc_err", errinfo_unknown());
+        }
+    }
+}
+
+int run(int argc, char** argv, const std::vector<Ops>& table) {
     // the event stream owns the original stdout; whatever the emitted code prints goes to stderr
-    int evfd = dup(1);
     std::fflush(stdout);
+    int evfd = dup(1);
     dup2(2, 1);
     const char* casefile = nullptr;
     long skip = 0;
@@ -676,11 +770,11 @@ inline int run(int argc, char** argv, const std::vector<Ops>& table) {
         for (const Ops& cand : table) if (cand.pkt == op["pkt"].str()) po = &cand;
         if (kind == "enc") {
             if (!po) fail(ev, "member-missing", "no emitted type for packet " + op["pkt"].str());
-            else po->enc(op, ev);
+            else run_enc(*po, op, ev);
         } else if (kind == "dec" || kind == "deckey") {
             ev.set("tail", static_cast<unsigned long long>(op["tail"].size()));
             if (!po) fail(ev, "member-missing", "no emitted type for packet " + op["pkt"].str());
-            else po->dec(op, ev, kind == "dec");
+            else run_dec(*po, op, ev, kind == "dec");
         } else {
             fail(ev, "build-raises", "unknown op kind " + kind);
         }
@@ -697,3 +791,4 @@ inline int run(int argc, char** argv, const std::vector<Ops>& table) {
 }
 
 }  // namespace drv
+#endif  // DRV_IMPLEMENTATION
